@@ -1,6 +1,8 @@
 package verifsim
 
 import (
+	"os"
+	"strings"
 	"context"
 	"errors"
 	"fmt"
@@ -249,8 +251,17 @@ func execC07(e *Env, pp any) {
 	reason = e.Drive(nil)
 	e.NoAutoAdvance = false
 	if reason == Quiescent {
+		if os.Getenv("VERIF_DBG_C07") != "" {
+			fmt.Println("QUIESCENT after cancel:\n" + e.WaitGraph())
+		}
 		for _, v := range e.W.Snapshot() {
-			if !v.Done && v.Started && v.Goat && v.LastSite == "internal/client/stream.go:readLoop:cancel#0" && containsAny(v.Name, "caller.target/") {
+			// the stream's read loop goroutine parked inside its teardown (between the
+			// decision to send a reset and the end of the teardown closure built in
+			// NewStream) with nothing runnable: it is blocked writing the reset
+			// ("link.write": the harness's own scheduling point at the entry of the
+			// transport write; the only thing this goroutine ever writes is the reset)
+			inTeardown := v.LastSite == "internal/client/stream.go:readLoop:cancel#0" || strings.HasPrefix(v.LastSite, "internal/client/stream.go:NewStream:") || v.LastSite == "link.write"
+			if !v.Done && v.Started && v.Goat && inTeardown && containsAny(v.Name, "caller.target/internal/client/stream.go:NewStream:go#") {
 				rstBlocked = true
 				e.Note("rst.write.blocked")
 			}
